@@ -92,11 +92,12 @@ static igris::safe_queue<int> *SQ;
 static std::vector<std::vector<long long>> rets;   // per thread: values returned by wait / pop
 static int n_waits = 0, n_pushes = 0;
 
-static std::atomic<int> g_arrived{0}; static int g_nth = 0;
+static std::atomic<int> g_arrived{0}; static int g_nth = 0; static bool g_was_ctl = false;
 static void run_thread(int tid, unsigned seed) {
     tl_tid = tid; tl_rng = seed * 7919u + tid * 104729u + 1;
-    if (g_ctl) {      // controlled executions start when every thread exists (a thread that is still being created cannot take its turn)
-        g_arrived.fetch_add(1); while (g_arrived.load() < g_nth) std::this_thread::yield();
+    if (g_was_ctl) {      // controlled executions start when every thread exists (a thread that is still being created cannot take its turn);
+        // g_was_ctl is fixed for the whole execution - the rescue may switch g_ctl off while threads are still being created
+        g_arrived.fetch_add(1); while (g_arrived.load() < g_nth && g_ctl) std::this_thread::yield();
         { std::lock_guard<std::mutex> lk(g_sm); g_progress = std::chrono::steady_clock::now(); }
         gate(tid); }
     syslock_save_pair sv{0, 0};
@@ -139,7 +140,7 @@ int main(int argc, char **argv) {
             alarm(0);
             g_log.clear(); g_unlinked = 0; g_enq = 0; g_finished = 0;
             WQ = new igris::dlist_base(); SQ = new igris::safe_queue<int>();
-            g_arrived = 0; g_nth = nth;
+            g_arrived = 0; g_nth = nth; g_was_ctl = g_ctl;
             std::vector<std::thread> th;
             for (int i = 1; i <= nth; ++i) th.emplace_back(run_thread, i, seed);
             // watchdog: all threads must finish
@@ -155,6 +156,7 @@ int main(int argc, char **argv) {
                 }
                 if (std::chrono::steady_clock::now() - t0 > std::chrono::seconds(3)) { hung = true; break; }
             }
+            if (!hung && rescue.joinable()) rescue.join();      // (its last unwait_all must be complete before the log is read)
             // event objects -> waiter thread (w_create carries the event address of that thread's waiter)
             Ev r("Reset"); r.str("kind", "sync").i("nth", nth); r.end();
             {
